@@ -202,3 +202,12 @@ type DivideByZero struct {
 func (e DivideByZero) Error() string {
 	return fmt.Sprintf("cannot divide by zero (in %s/0)", e.Numerator.String())
 }
+
+type InvalidAccountName struct {
+	parser.Range
+	Name string
+}
+
+func (e InvalidAccountName) Error() string {
+	return fmt.Sprintf("Invalid account name: '%s'", e.Name)
+}
